@@ -28,6 +28,7 @@ func checkC19(c *Ctx) {
 	// what the record reports about the request is read after the handlers ran: nothing may have rewritten it (shared with C13)
 	c.floor("R19.6 logged-request-fields-unaltered", 10)
 	r131touches(c, "R19.6 logged-request-fields-unaltered")
+	rHandledMeansAnswered(c, "R19.7 handled-means-answered")
 }
 
 func r191(c *Ctx) {
@@ -507,4 +508,57 @@ func r195(c *Ctx) {
 		}
 	}
 	c.ob(rule, "ResponseBufferMiddleware/Send-after-next-on-every-path", rbm.Pos(), ok, true, "the buffered status and body must be flushed through the outer (counting) writer whatever the request's context state: skipping Send on a cancelled request loses the 499 the proxy recorded for the log")
+}
+
+// R19.7 a request the gate finishes itself has been given its status explicitly: the record's status is whatever reached
+// WriteHeader and stays at the initial 200 when nothing did. On every path on which handlePausedAndStoppedRequests
+// reports "handled" (the caller then returns without forwarding) a response was written (SetErrorResponse, WriteHeader,
+// http.Error / Redirect); a silent "handled" - e.g. for a client that went away while held - is logged as a 200 that
+// was never sent, where the request would otherwise have been forwarded and recorded as 499 by the target's error handler.
+func rHandledMeansAnswered(c *Ctx, rule string) {
+	c.floor(rule, 2)
+	gate := c.method("Service", "handlePausedAndStoppedRequests")
+	ser := c.fn("SetErrorResponse")
+	writes := func(in ssa.Instruction) bool {
+		ci, ok := in.(ssa.CallInstruction)
+		if !ok {
+			return false
+		}
+		cc := ci.Common()
+		if cc.IsInvoke() {
+			return cc.Method.Name() == "WriteHeader" || cc.Method.Name() == "Write"
+		}
+		if isCallTo(cc, ser) {
+			return true
+		}
+		switch calleeName(cc) {
+		case "net/http.Error", "net/http.Redirect", "net/http.NotFound":
+			return true
+		}
+		return false
+	}
+	paths, complete := enumPathsX(gate, func(*ssa.Return) bool { return true }, 4000)
+	c.ob(rule, "gate/paths-enumerated", gate.Pos(), complete && len(paths) > 0, false, fmt.Sprintf("%d paths", len(paths)))
+	nHandled, silent := 0, token.NoPos
+	for _, p := range paths {
+		if p.ret == nil || len(p.ret.Results) != 1 {
+			continue
+		}
+		v := p.pathValue(retVal(p.ret, 0))
+		if k, ok := constBool(v); ok && !k {
+			continue // let through: the balancer answers
+		}
+		nHandled++
+		if !p.passes(writes) && !silent.IsValid() {
+			silent = p.ret.Pos()
+			if !silent.IsValid() {
+				silent = gate.Pos()
+			}
+		}
+	}
+	pos := gate.Pos()
+	if silent.IsValid() {
+		pos = silent
+	}
+	c.ob(rule, "gate/every-handled-path-writes-a-response", pos, nHandled > 0 && !silent.IsValid(), true, fmt.Sprintf("%d paths report the request handled; one that wrote nothing leaves the record at the default 200", nHandled))
 }
